@@ -441,6 +441,38 @@ pub fn child(ctx: &Ctx) -> i32 {
         rep
     });
     let mut rep = rep;
+    // nesting up to the property's bound (64) in every position that nests
+    for d in [8usize, 16, 32, 48, 64] {
+        let wrap = |open: &str, close: &str, core: &str| format!("{}{}{}", open.repeat(d), core, close.repeat(d));
+        let rule = |ident: &str, cond: &str, tp: &str| format!("detection:\n  A: {}\n  condition: '{}'\ntrue_positives: {}\ntrue_negatives: []\n", ident, cond, tp);
+        let nested_map = wrap("{k: ", "}", "v");
+        let nested_seq = wrap("[", "]", "{k: v}");
+        let inputs = vec![
+            rule(&nested_map, "A", "[]"),
+            rule(&nested_seq, "A", "[]"),
+            rule(&format!("{{k: {}}}", wrap("[", "]", "v")), "A", "[]"),
+            rule("{k: v}", &wrap("(", ")", "A"), "[]"),
+            rule("{k: v}", &format!("{}A", "not ".repeat(d)), "[]"),
+            rule("{k: v}", &format!("{}A{}", "(not ".repeat(d), ")".repeat(d)), "[]"),
+            rule("{k: v}", &format!("A{}", " and A".repeat(d)), "[]"),
+            rule("{k: v}", &format!("A{}", " or (A".repeat(d)) , "[]"),
+            rule("{k: v}", "A", &format!("[{}]", wrap("[", "]", "1"))),
+            rule("{k: v}", "A", &format!("[{}]", wrap("{a: ", "}", "1"))),
+            rule(&format!("{{'{}': v}}", wrap("all(", ")", "k")), "A", "[]"),
+            rule(&format!("{{'{}': v}}", wrap("(", ")", "k")), "A", "[]"),
+            rule(&format!("{{k: '{}'}}", wrap("?(", ")", "a")), "A", "[]"),
+        ];
+        for t in inputs {
+            record(&mut rep, "yaml-text", &t);
+            rep.count("deep_nesting_inputs");
+        }
+        record(&mut rep, "cond", &wrap("(", ")", "A"));
+        record(&mut rep, "cond", &wrap("all(", ")", "A"));
+        record(&mut rep, "key", &wrap("not(", ")", "k"));
+        record(&mut rep, "pattern", &wrap("?(", ")", "a"));
+        record(&mut rep, "pattern", &"*".repeat(d));
+        record(&mut rep, "pattern", &"i".repeat(d));
+    }
     crate::regress::replay_witnesses(ctx, &mut rep);
     for l in ["cond", "pattern", "key", "yaml-value", "yaml-text"] {
         if rep.get(&format!("{}.accepted", l)) == 0 {
